@@ -1,7 +1,7 @@
 (* C07 - The traced schema does not depend on sample order or repetition.
    Model: Trace/Tracer.v (trace, to_field, from_samples), compared with the crate on every run
    (exhaustive leaf pairs x 16 option sets, triples, nested shapes). *)
-From Verif Require Import Tracer Coerce Coerce_proofs CoerceTable CoerceTable_proofs TracerTablesSpec Null_proofs.
+From Verif Require Import Tracer Coerce Coerce_proofs CoerceTable CoerceTable_proofs TracerTablesSpec Null_proofs Struct_proofs.
 From Coq Require Import Permutation.
 
 (* Full-strength statement (kept visible): evaluated on the implementation on every run by the
@@ -92,7 +92,19 @@ Proof. exact null_element_position. Qed.
 Example C07_trace_all_is_fold : forall o samples, trace_all o samples = trace_seq' o 0 samples (Ok (TUnknown false)).
 Proof. reflexivity. Qed.
 
+(* "struct fields may appear in first-seen order": for a collection of record samples (with any nested content) the fields of the
+   record tracer are exactly the keys of the samples in the order of their first occurrence - never removed, renamed or reordered *)
+Theorem C07_fields_in_first_seen_order : forall o d samples t t',
+  Forall (fun v => exists fa, v = VStruct fa) samples ->
+  (match t with TStruct _ _ _ _ | TUnknown _ => True | _ => False end) ->
+  samples <> [] -> trace_seq' o d samples (Ok t) = Ok t' ->
+  exists n m s fs', t' = TStruct n m s fs' /\
+    map fname3 fs' = fold_left (fun acc v => match v with VStruct fa => add_names acc (map fst fa) | _ => acc end) samples
+                               (match t with TStruct _ _ _ fs => map fname3 fs | _ => [] end).
+Proof. exact record_collection_names. Qed.
+
 Print Assumptions C07_leaf_perm_partial.
 Print Assumptions C07_leaf_success_order_free_partial.
 Print Assumptions C07_coerce_arms_match_model.
 Print Assumptions C07_null_commutes_with_any_sample.
+Print Assumptions C07_fields_in_first_seen_order.
